@@ -14,7 +14,8 @@ from props import common_match
 warnings.simplefilter('ignore')
 PID = 'C11'
 SOURCES = ['SoupVerif/Properties/C11.lean', 'SoupVerif/Lemmas/Names.lean', 'SoupVerif/Model/Match.lean',
-           'SoupVerif/Properties/C11Gen.lean', 'SoupVerif/Generated/PyStrings.lean', 'SoupVerif/Model/PyStrings.lean']
+           'SoupVerif/Properties/C11Gen.lean', 'SoupVerif/Generated/PyStrings.lean', 'SoupVerif/Model/PyStrings.lean',
+           'SoupVerif/Properties/C11GenAttrSel.lean', 'SoupVerif/Generated/PyAttrSel.lean', 'SoupVerif/Model/AttrSelDyn.lean']
 RULE = ('one logical tree (mixed-case tag names, attribute names and values, a type attribute; made element names, attribute names '
         'and values -- custom elements, data-* like and unknown words, in any case -- whose letters are dealt from a reshuffled '
         'alphabet so that every ASCII letter is folded in both directions (selector upper / stored lower and the reverse; see '
